@@ -136,7 +136,8 @@ class DFTKernel(KernelEvalBase):
     def Nctrl(self):
         if self.X1ctrl is None:
             raise ValueError("X1ctrl not set.")
-        return self.X1ctrl.shape[0]
+        # POL control points are stored per spin channel, (2, Nctrl, N1)
+        return self.X1ctrl.shape[-2]
 
     def _reduce_npts(self, X):
         if self.mode == "POL":
@@ -269,11 +270,11 @@ class DFTKernel(KernelEvalBase):
             kab, dkab = self.kernel.k_and_deriv(X1[0], self.X1ctrl[1])
             kba, dkba = self.kernel.k_and_deriv(X1[1], self.X1ctrl[0])
             k = kaa * kbb + kab * kba
-            dkdX1a = dkaa * kbb + dkab * kba
+            dkdX1a = dkaa * kbb[..., None] + dkab * kba[..., None]
             if nspin == 1:
                 dkdX1 = dkdX1a
             else:
-                dkdX1b = dkbb * kaa + dkba * kab
+                dkdX1b = dkbb * kaa[..., None] + dkba * kab[..., None]
                 dkdX1 = np.concatenate([dkdX1a, dkdX1b], axis=0)
         else:
             k, dkdX1 = self.kernel.k_and_deriv(X1, self.X1ctrl)
